@@ -5,7 +5,9 @@ functions, so it can be serialised (replay), hashed (distinct counting) and buil
 as rxsci operators for a MuxObservable, as rxsci operators for a plain Observable (same calls,
 the library dispatches), and as a term of the reference model (model.py).
 """
+import collections as _collections
 import copy
+import enum as _enum
 import functools
 import math
 import zlib
@@ -35,6 +37,16 @@ import numpy as _np                                                   # noqa: E4
 
 
 _THE_NAN = float('nan')
+
+
+class Tag(str):
+    """case-insensitive equality, inherited (case-sensitive) inequality"""
+
+    def __eq__(self, other):
+        return isinstance(other, str) and self.lower() == other.lower()
+
+    def __hash__(self):
+        return hash(self.lower())
 
 
 class Approx:
@@ -117,6 +129,17 @@ def boom_for(item_id, item):
     return BOOMS[item_id % len(BOOMS)](item)
 
 
+class Phase(_enum.IntEnum):
+    IDLE = 0
+    ACTIVE = 1
+    DONE = 2
+
+
+def _ddict_mut(a, i):
+    a[digest(i) % 3] += 1
+    return a
+
+
 def _ndict_mut(a, i):
     a['seen'].append(i)
     a['n'] += 1
@@ -171,6 +194,8 @@ _FUNCS = {
     'frompy': lambda: (lambda p: int(p)),
     'id': lambda: (lambda i: i),
     'dt': lambda: (lambda i: _EPOCH + _timedelta(seconds=i)),
+    # no timestamp at all: time_split used for its closing_mapper only (no timeout configured)
+    'tnone': lambda: (lambda i: None),
     # the same instants as timezone-AWARE datetimes whose UTC offset changes from item to item (local-time logs across a
     # daylight-saving change, records from several regions): they compare by instant, not by wall-clock fields
     'dtz': lambda: (lambda i: (_EPOCH_UTC + _timedelta(seconds=i)).astimezone(_timezone(_timedelta(hours=(i % 5) - 2, minutes=30 * (i % 2))))),
@@ -224,6 +249,10 @@ _FUNCS = {
     'acc_box_mut': lambda: _box_mut,
     'acc_tbox_mut': lambda: _tbox_mut,
     'acc_digest': lambda: (lambda a, i: (a * 7 + digest(i)) % 1009),
+    # a per-key state machine on an IntEnum: the accumulator needs the MEMBER (its name), not just its integer value
+    'acc_phase': lambda: (lambda a, i: Phase((Phase[a.name].value + digest(i)) % 3)),
+    # a tally in a defaultdict given as a VALUE seed: a copy must keep its default_factory
+    'acc_ddict_mut': lambda: _ddict_mut,
     # in-place folds on seeds that are containers WITH a copy() method holding another container (a shallow copy shares it)
     'acc_ndict_mut': lambda: _ndict_mut,
     'acc_nlist_mut': lambda: _nlist_mut,
@@ -269,6 +298,8 @@ _FUNCS = {
     # values that compare by IDENTITY (instances of a plain class without __eq__): a copy of one is != to it
     'divobj': lambda k: (lambda i: _PLAIN_OBJECTS[(i // k) % len(_PLAIN_OBJECTS)]),
     'divobjt': lambda k: (lambda i: (_PLAIN_OBJECTS[(i // k) % len(_PLAIN_OBJECTS)], 'x')),
+    # a str subclass that overrides __eq__ only: Python keeps str's own __ne__, so `a != b` and `not (a == b)` disagree
+    'divtag': lambda k: (lambda i: Tag('tag%d' % ((i // k) // 2) if (i // k) % 2 else 'TAG%d' % ((i // k) // 2))),
     'divnan': lambda k: (lambda i: _THE_NAN if (i // k) % 3 == 1 else (i // k)),
     # different keys whose hashes collide: hash(-1) == hash(-2); ints congruent mod 2**61-1 share a hash
     'kneg': lambda k: (lambda i: -1 - (i % k)),
@@ -291,6 +322,7 @@ _SEEDS = {
     'nested': lambda: ([], 0),          # an immutable container holding a mutable one: needs a DEEP copy per key
     'npvec': lambda: _np.zeros(2, dtype='int64'),
     'ndict': lambda: {'n': 0, 'seen': []}, 'nlist': lambda: [[], 0],
+    'phase': lambda: Phase.IDLE, 'ddict': lambda: _collections.defaultdict(int),
     # seed FACTORIES that are callable without being functions or classes
     'list_partial': lambda: functools.partial(list, ()),
     'list_callable_object': lambda: _ListFactory(),
@@ -478,7 +510,7 @@ FUNC_SIG = {
 }
 SEED_TYPE = {'zero': 'i', 'zerof': 'f', 'list': 'x', 'list_factory': 'x', 'dict_factory': 'x', 'pair00': 't',
              'neg1': 'i', 'arr_factory': 'x', 'one': 'i', 'nested': 'x', 'box': 'x', 'tbox': 'x', 'npvec': 'x',
-             'list_partial': 'x', 'list_callable_object': 'x', 'list_lru': 'x', 'ndict': 'x', 'nlist': 'x'}
+             'list_partial': 'x', 'list_callable_object': 'x', 'list_lru': 'x', 'ndict': 'x', 'nlist': 'x', 'phase': 'x', 'ddict': 'x'}
 
 
 def out_type(node, t):
@@ -499,7 +531,7 @@ def out_type(node, t):
     return o
 
 
-INT_FUNCS = {'kapprox', 'kobj', 'sub', 'tonp', 'knp', 'modnp', 'divnp', 'divnpf', 'npgt', 'kcent', 'divcent', 'divbool', 'divnone', 'divnan', 'divobj', 'divobjt', 'add', 'mul', 'mod', 'div', 'neg', 'pair', 'pairmod', 'rep', 'upto', 'opt', 'half', 'tofloat', 'nt', 'even', 'odd',
+INT_FUNCS = {'kapprox', 'kobj', 'sub', 'tonp', 'knp', 'modnp', 'divnp', 'divnpf', 'npgt', 'kcent', 'divcent', 'divbool', 'divnone', 'divnan', 'divobj', 'divobjt', 'divtag', 'add', 'mul', 'mod', 'div', 'neg', 'pair', 'pairmod', 'rep', 'upto', 'opt', 'half', 'tofloat', 'nt', 'even', 'odd',
              'modeq', 'modne', 'modtruthy', 'kt', 'ks', 'kbig', 'kf', 'kmix', 'kneg', 'kmers', 'ktneg', 'divt', 'divs', 'divbig', 'divhuge', 'divf', 'divpar'}
 NUM_FUNCS = {'gt', 'lt', 'trunc', 'scale10'}
 ANY_FUNCS = {'id', 'digest', 'dgt', 'true', 'false', 'kdig', 'digpar', 'ktype'}
@@ -573,6 +605,8 @@ def pipeline_type(prog, t):
 
 def build_node(node, env=None, taps=None, path=()):
     name = node[0]
+    if name == 'prebuilt':
+        return node[1]          # an operator object built earlier (and possibly used in another pipeline already)
     if name == 'tee_map':
         return _tee_build(node, env, taps, path)
     if name in ('group_by', 'roll', 'split', 'time_split'):
